@@ -148,7 +148,18 @@ type guardedClass struct {
 	Name    string
 	T       *types.Named
 	Fields  []string
-	MuField string
+	MuField string // the struct's (first declared) mutex
+	// a struct with several mutexes: every one of them, and the one each field is kept under (inferred from the
+	// accesses: the mutex held at most of the field's accesses; the first declared mutex otherwise)
+	MuFields []string
+	Guard    map[string]string
+}
+
+func (g *guardedClass) guardOf(field string) string {
+	if m, ok := g.Guard[field]; ok {
+		return m
+	}
+	return g.MuField
 }
 
 // guardedClasses lists comet structs that contain a sync.RWMutex / sync.Mutex field.
@@ -173,7 +184,10 @@ func guardedClasses(w *World) []*guardedClass {
 			f := st.Field(i)
 			ts := tstr(f.Type(), nil)
 			if ts == "sync.RWMutex" || ts == "sync.Mutex" {
-				g.MuField = f.Name()
+				if g.MuField == "" {
+					g.MuField = f.Name()
+				}
+				g.MuFields = append(g.MuFields, f.Name())
 			} else {
 				g.Fields = append(g.Fields, f.Name())
 			}
